@@ -22,7 +22,7 @@ ASSUMPTIONS = [
     "state-dict round trips are used to reach more states; their own correctness is judged by C10",
     "bfloat16 models use in_features that are multiples of 16 or not multiples of 4 (torch int8pack kernel domain, see C07)",
 ]
-PRESERVING = {"freeze", "to_cpu", "deepcopy", "sd", "no_grad_params"}
+PRESERVING = {"freeze", "to_cpu", "deepcopy", "sd", "no_grad_params", "soak"}
 
 
 class St:
@@ -32,6 +32,8 @@ class St:
 
 
 def _events(st, tier):
+    if st.cfg.get("soak"):
+        return ["freeze", "soak", "deepcopy", "fwd_a"]
     ev = ["fwd_a", "freeze", "to_cpu", "deepcopy", "sd", "no_grad_params"]
     if st.cfg["a"]:
         ev.append("calib_a")
@@ -52,6 +54,12 @@ def _apply(st, ev):
     elif ev in ("calib_a", "calib_b", "calib_s"):
         with torch.no_grad(), Calibration(streamline=(ev == "calib_s")):
             m(models.probe_input(cfg["model"], cfg["dt"], 0 if ev == "calib_a" else 1))
+    elif ev == "soak":
+        # a long-running service: many inference forwards on the same model object
+        with torch.no_grad():
+            x = models.probe_input(cfg["model"], cfg["dt"], 0)
+            for _ in range(cfg["soak"]):
+                m(x)
     elif ev == "freeze":
         freeze(m)
     elif ev == "no_grad_params":
@@ -226,6 +234,15 @@ def _cfgs(tier):
         for w in ("qint8", "qfloat8_e4m3fn", "qint4"):
             for a in (None, "qint8"):
                 out.append({"model": model, "w": w, "a": a, "dt": "float32", "long": 40 if tier == "quick" else 120})
+    # repetition ladder: more than a thousand forwards of one model object between the usual events
+    for model in ("mlp", "conv", "ln"):
+        for w in models.WQ:
+            for a in (None, "qint8"):
+                out.append({"model": model, "w": w, "a": a, "dt": "float32", "soak": 1100 if tier == "quick" else 5000, "depth": 3})
+    # many index-named quantized siblings
+    for w in ("qint8", "qint4"):
+        for a in (None, "qint8"):
+            out.append({"model": "seq12", "w": w, "a": a, "dt": "float32", "depth": 3})
     # size ladder: large layers (tiling / blocking / caching code paths), shallow histories
     for model in ("big_lin", "big_pair", "big_conv"):
         for w in ("qint8", "qfloat8_e4m3fn", "qint4", "qint2"):
